@@ -254,7 +254,7 @@ funptr_t* make_functional_funp (int num_arg, int num_local, int len, svalue_t * 
   current_prog->func_ref++;
 
   funptr->f.functional.prog = current_prog;
-  funptr->f.functional.offset = (short)(pc - current_prog->program);
+  funptr->f.functional.offset = (unsigned short)(pc - current_prog->program);
   funptr->f.functional.num_arg = (unsigned char)num_arg;
   funptr->f.functional.num_local = (unsigned char)num_local;
   funptr->f.functional.fio = (short)function_index_offset;
